@@ -430,6 +430,33 @@ def g_datadict(s, P):
     return P
 
 
+def g_lowpass_dd(s, P):
+    """coverage distributions computed from a data dictionary of two populations with different depth, fed to the low-pass model"""
+    pops = s.choice([['YRI', 'CEU'], ['wolf', 'dog'], ['a_pop', 'b_pop']])
+    if s.chance(0.5):
+        pops = pops[::-1]
+    nchrom = [s.choice([4, 6]), s.choice([4, 6])]
+    dd = P.add('mk_data_dict', s.randint(0, 3), 20, pops, nchrom, 4)
+    P.add('LP.compute_cov_dist', dd, pops)
+    if s.chance(0.7):
+        f = {'$fn': 'model', 'id': 'split_mig'}
+        P.add('LP.lowpass_from_dd', f, [1.0, 2.0, 0.05, 1.0], [2, 2], [8], dd, pops, nchrom)
+    return P
+
+
+def g_optgrid(s, P):
+    """brute-force grid search with full output (thetas come back through Inference._theta_store), twice, on different data"""
+    f = {'$fn': 'model', 'id': 'two_epoch'}
+    ns = [s.choice([4, 6])]
+    pts = [8]
+    grid = [[0.5, 2.1, 0.75], [0.02, 0.11, 0.04]]
+    for _ in range(s.randint(1, 2)):
+        truth = P.add('extrap_call', f, [s.choice([0.5, 2.0]), s.choice([0.05, 0.1])], ns, pts)
+        data = P.add('S.scale', truth, s.choice([20.0, 100.0, 300.0]))
+        P.add('optimize_grid', data, f, pts, grid, full_output=s.chance(0.7), multinom=s.chance(0.7))
+    return P
+
+
 def g_lowpass_model(s, P):
     """low-pass corrected model: two corrections with the same subsample sizes and different coverage distributions"""
     f = {'$fn': 'model', 'id': 'two_epoch'}
@@ -647,7 +674,7 @@ def g_interference(s, P):
 
 TEMPLATES = [
     (g_chain1d, 10), (g_chain2d, 12), (g_chain3d, 7), (g_chain4d, 6), (g_chain5d, 2), (g_spectrum, 10), (g_numerics, 7),
-    (g_lowpass, 4), (g_lowpass_model, 2), (g_datadict, 5), (g_opthelp, 4), (g_objective, 3), (g_inbreeding, 4), (g_extrap, 5), (g_demes, 6), (g_godambe, 8), (g_godambe_neg, 2), (g_godambe_real, 2),
+    (g_lowpass, 4), (g_lowpass_model, 2), (g_lowpass_dd, 3), (g_optgrid, 2), (g_datadict, 5), (g_opthelp, 4), (g_objective, 3), (g_inbreeding, 4), (g_extrap, 5), (g_demes, 6), (g_godambe, 8), (g_godambe_neg, 2), (g_godambe_real, 2),
 ]
 
 
